@@ -17,10 +17,9 @@ pub fn dkz(signal: &SignalBeam, pump: &PumpBeam, cs: &CrystalSetup, pp: &Periodi
 /// table, minus 2π/Λ with the poling's sign (so that state kept inside `delta_k` cannot hide from the predicate)
 pub fn dkz_indep(signal: &SignalBeam, pump: &PumpBeam, cs: &CrystalSetup, pp: &PeriodicPoling) -> f64 {
   let idler = IdlerBeam::try_new_optimum(signal, pump, cs, pp).unwrap();
-  let (pol_p, pol_s, pol_i) = pol_of(cs.pm_type);
-  let kp = indep_k(cs, 0., 0., pol_p, w_of(pump));
-  let ks = indep_k(cs, th_of(signal), ph_of(signal), pol_s, w_of(signal));
-  let ki = indep_k(cs, th_of(&idler), ph_of(&idler), pol_i, w_of(&idler));
+  let kp = indep_k(cs, 0., 0., pump.polarization(), w_of(pump));
+  let ks = indep_k(cs, th_of(signal), ph_of(signal), signal.polarization(), w_of(signal));
+  let ki = indep_k(cs, th_of(&idler), ph_of(&idler), idler.polarization(), w_of(&idler));
   let kl = match pp {
     PeriodicPoling::Off => 0.0,
     PeriodicPoling::On { period, sign, .. } => TAU / (*(*period / M) * if *sign == Sign::NEGATIVE { -1.0 } else { 1.0 }),
@@ -633,12 +632,40 @@ fn config_case(ctx: &mut Ctx, crystal: &CrystalType, pm: PMType, cphi_deg: f64, 
       return;
     }
   };
-  let r = guard(|| cfg.try_as_spdc());
+  // the setup the configuration describes, assembled from its parts (needed to judge an Err outcome)
+  let parts = {
+    let cs: CrystalSetup = cfg.crystal.clone().into();
+    let pu = cfg.pump.clone().as_beam(&cs);
+    cfg.signal.clone().try_as_beam(&cs).ok().map(|sg| (cs, sg, pu))
+  };
+  let via_json = ctx.rng.coin();
+  let r = if via_json { guard(|| SPDC::from_json(&json).map_err(|e| spdcalc::SPDCError(e.to_string()))) } else { guard(|| cfg.try_as_spdc()) };
   let len = len_um * 1e-6;
+  if !auto_theta {
+    // "poling_period_um": "auto" — every clause, whatever the outcome
+    let what = format!("{} via={}", what, if via_json { "from_json" } else { "try_as_spdc" });
+    match (&r, &parts) {
+      (Some(Ok(spdc)), _) => {
+        let on = spdc.pp != PeriodicPoling::Off;
+        ctx.s("C04.config", on, if on { "config/period-auto-is-poled" } else { "config/period-auto-returned-unpoled" }, &what);
+        if on {
+          ctx.count("config/period/ok");
+          judge_period(ctx, "config-auto", &spdc.crystal_setup, &spdc.signal, &spdc.pump, &PeriodOut::Ok(spdc.pp.clone()), &what);
+        }
+      }
+      (Some(Err(_)), Some((cs, sg, pu))) => {
+        ctx.count("config/period/err");
+        judge_period(ctx, "config-auto", cs, sg, pu, &PeriodOut::Err, &what);
+      }
+      (Some(Err(_)), None) => ctx.count("config/period/err-no-parts"),
+      (None, _) => ctx.count("period@config-auto/outcome/panic"),
+    }
+    return;
+  }
   match r {
     None => ctx.s("C04.config", false, "config/panic", &what),
     Some(Err(_)) => {
-      ctx.count(if auto_theta { "config/theta/err" } else { "config/period/err" });
+      ctx.count("config/theta/err");
     }
     Some(Ok(spdc)) => {
       let d = raw_vec(spdc.delta_k(spdc.signal.frequency(), spdc.idler.frequency())).z;
@@ -682,20 +709,6 @@ fn config_case(ctx: &mut Ctx, crystal: &CrystalType, pm: PMType, cphi_deg: f64, 
         } else {
           ctx.count("config/theta/unmatchable");
         }
-      } else {
-        let direct = optimum_poling_period(&spdc.signal, &spdc.pump, &spdc.crystal_setup);
-        let got = *(spdc.pp.signed_period() / M);
-        ctx.count("config/period/ok");
-        ctx.count(if direct.as_ref().map(|p| *(*p / M) == got).unwrap_or(false) { "config/period/equals-direct-call" } else { "config/period/differs-from-direct-call" });
-        let z = dkz(&spdc.signal, &spdc.pump, &spdc.crystal_setup, &PeriodicPoling::Off);
-        let over = (TAU / z.abs() - len) * 1e6;
-        let clamped = got.abs() >= len * (1.0 - 1e-12);
-        ctx.s(
-          "C04.config",
-          phase < 1e-3 && (got < 0.0) == (z < 0.0) && got.abs() <= len,
-          if phase < 1e-3 || !clamped { "config/period-statement" } else { "period/phasematch/clamped-at-length" },
-          &format!("{} period={:e} half_phase={:e} z_unpoled={:e} over_um={:.4}", what, got, phase, z, over),
-        );
       }
     }
   }
@@ -864,6 +877,38 @@ pub fn run(ctx: &mut Ctx) {
       let lp_nm = (lp * 1e9 * 1e3).round() / 1e3;
       let ls_nm = (ls * 1e9 * 1e3).round() / 1e3;
       config_case(ctx, &crystal, pm, cphi, cth, len, t, lp_nm, ls_nm, ths, phs, auto_theta);
+
+      // targeted (Err clause through the configuration route): auto poling on a crystal cut 0.05°…1° away from its
+      // birefringent phase-matching angle, collinear, with the crystal shorter than the needed period by a factor 1.05…10
+      if k % 2 == 0 && crystal != CrystalType::BiBO_1 && crystal != CrystalType::KTP {
+        let pm3 = *ctx.rng.pick(&pms3);
+        let (lp_m, ls_m) = (lp_nm * 1e-9, ls_nm * 1e-9);
+        let cs0 = mk_setup(crystal.clone(), pm3, 0.0, cphi.to_radians(), 2e-3, t, false);
+        let (sg, pu) = mk_beams(pm3, lp_m, ls_m, 0.0, 0.0, 100e-6);
+        if let Some(auto) = guard(|| *(cs0.optimum_theta(&sg, &pu) / RAD)) {
+          let mut c1 = cs0.clone();
+          c1.theta = auto * RAD;
+          if dkz(&sg, &pu, &c1, &PeriodicPoling::Off).abs() < 1.0 {
+            let delta = ctx.rng.log_range(0.05, 1.0) * if ctx.rng.coin() { 1.0 } else { -1.0 };
+            let cth2 = rnd(&mut ctx.rng, 0.0, 0.0) + ((auto.to_degrees() + delta) * 1e4).round() / 1e4;
+            c1.theta = cth2.to_radians() * RAD;
+            let z = dkz(&sg, &pu, &c1, &PeriodicPoling::Off);
+            let needed_um = TAU / z.abs() * 1e6;
+            let factor = ctx.rng.log_range(1.05, 10.0);
+            let l_um = ((needed_um / factor) * 1e4).round() / 1e4;
+            if (1000.0..=30000.0).contains(&l_um) && (0.0..=90.0).contains(&cth2) {
+              ctx.count("config/period/targeted-needed-longer-than-L");
+              config_case(ctx, &crystal, pm3, cphi, cth2, l_um, t, lp_nm, ls_nm, 0.0, phs, false);
+            }
+            // and the mirror case: the crystal comfortably longer than the needed period (must be poled and nulled)
+            let l2 = ((needed_um * ctx.rng.log_range(1.05, 5.0)) * 1e4).round() / 1e4;
+            if (1000.0..=30000.0).contains(&l2) && (0.0..=90.0).contains(&cth2) {
+              ctx.count("config/period/targeted-needed-shorter-than-L");
+              config_case(ctx, &crystal, pm3, cphi, cth2, l2, t, lp_nm, ls_nm, 0.0, phs, false);
+            }
+          }
+        }
+      }
     }
   }
 
